@@ -209,6 +209,7 @@ inductive Sub where
   | upd (n : Nat)
   | del (n : Nat)
   | roomadd (r : Room)
+  | stream (rows : List (Nat × Room × Ent))     -- a stream closed after its acknowledgements
 deriving Repr, DecidableEq
 
 inductive Op where
@@ -225,7 +226,7 @@ inductive Op where
   | stream (s : Nat) (mode : Mode) (rows : List (Nat × Room × Ent))
   | pull (s t : Nat) (r : Room)
   | flush (s : Nat)
-  | mix (s : Nat) (subs : List Sub)
+  | mix (s : Nat) (subs : List Sub) (pull : Option (Nat × Room))   -- `pull`: a concurrent ingestion from that site
 deriving Repr
 
 /-- local ops: the new site and the actions, or `none` when the op is not applicable (skipped) -/
@@ -435,7 +436,7 @@ def setSite (i : Nat) (s : Site) (l : List Site) : List Site := l.set i s
 def siteOf : Op → Option Nat
   | .day _ => none
   | .room s _ | .roomadd s _ | .new s _ _ _ | .upd s _ _ | .nop s _ | .ref s _ _ | .unref s _
-  | .del s _ | .refdel s _ _ | .stream s _ _ | .pull s _ _ | .flush s | .mix s _ => some s
+  | .del s _ | .refdel s _ _ | .stream s _ _ | .pull s _ _ | .flush s | .mix s _ _ => some s
 
 /-! #### concurrent local operations on one site
 
@@ -448,35 +449,67 @@ def Sub.toOp (si : Nat) : Sub → Op
   | .upd n => .upd si n none
   | .del n => .del si n
   | .roomadd r => .roomadd si r
+  | .stream rows => .stream si .acked rows
 
-def Sub.row? : Sub → Option Nat
-  | .new n _ _ | .upd n | .del n => some n
-  | .roomadd _ => none
+/-- the rows a sub-operation creates or changes -/
+def Sub.rows : Sub → List Nat
+  | .new n _ _ | .upd n | .del n => [n]
+  | .roomadd _ => []
+  | .stream rows => rows.map fun x => x.1
 
-/-- sub-operations applicable in the state at the start of the mix; one per row (the first) -/
+def Sub.newRows : Sub → List Nat
+  | .new n _ _ => [n]
+  | .stream rows => rows.map fun x => x.1
+  | _ => []
+
+/-- changes an existing row (excluded when an ingestion runs concurrently: it could touch the same row) -/
+def Sub.rowOp : Sub → Bool
+  | .upd _ | .del _ => true
+  | _ => false
+
+/-- one sub-operation: the new site and its actions, the recompute request left out -/
+def subApply (d : Defects) (tick : Nat) (day : Day) (usedRows : List Nat) (rooms : List (Room × Nat))
+    (si : Nat) (s : Site) : Sub → Option (Site × List Act)
+  | .stream rows =>
+    if rows.isEmpty || !(streamOk usedRows s [] rows) then none
+    else
+      let rs := streamRows tick day rows
+      some ({ s with rows := rs.foldl (fun acc r => setRow r acc) s.rows },
+            rs.map fun r => Act.write [cellOf r] [cellOf r])
+  | sub =>
+    (localOp d tick day usedRows rooms si s (sub.toOp si)).map fun x => (x.1, x.2.filter fun a => a ≠ .pass)
+
+/-- sub-operations applicable in the state at the start of the mix, on pairwise distinct rows (first wins) -/
 def mixSelect (d : Defects) (tick : Nat) (day : Day) (usedRows : List Nat) (rooms : List (Room × Nat))
-    (si : Nat) (s : Site) : List Nat → List Sub → List Sub
+    (si : Nat) (noRowOps : Bool) (s : Site) : List Nat → List Sub → List Sub
   | _, [] => []
   | seen, sub :: rest =>
-    let ok := (localOp d tick day usedRows rooms si s (sub.toOp si)).isSome
-    match sub.row? with
-    | some n =>
-      if ok && !(seen.contains n) then sub :: mixSelect d tick day usedRows rooms si s (n :: seen) rest
-      else mixSelect d tick day usedRows rooms si s seen rest
-    | none =>
-      if ok then sub :: mixSelect d tick day usedRows rooms si s seen rest
-      else mixSelect d tick day usedRows rooms si s seen rest
+    if (subApply d tick day usedRows rooms si s sub).isSome && !(sub.rows.any fun n => seen.contains n)
+        && !(noRowOps && sub.rowOp) then
+      sub :: mixSelect d tick day usedRows rooms si noRowOps s (sub.rows ++ seen) rest
+    else mixSelect d tick day usedRows rooms si noRowOps s seen rest
 
-/-- apply the selected sub-operations one after the other, keeping every action but the requests -/
+/-- apply the selected sub-operations one after the other -/
 def mixApply (d : Defects) (tick : Nat) (day : Day) (usedRows : List Nat) (rooms : List (Room × Nat))
     (si : Nat) : Site → List Sub → Site × List Act
   | s, [] => (s, [])
   | s, sub :: rest =>
-    match localOp d tick day usedRows rooms si s (sub.toOp si) with
+    match subApply d tick day usedRows rooms si s sub with
     | none => mixApply d tick day usedRows rooms si s rest
     | some (s1, acts) =>
       let r := mixApply d tick day usedRows rooms si s1 rest
-      (r.1, acts.filter (fun a => a ≠ .pass) ++ r.2)
+      (r.1, acts ++ r.2)
+
+/-- the concurrent ingestion of a mix, if applicable -/
+def mixPull (st : State) (si : Nat) (s : Site) : Option (Nat × Room) → Option (Site × List Act)
+  | none => none
+  | some (ti, r) =>
+    match st.sites[ti]? with
+    | none => none
+    | some src => if si = ti || !(st.rooms.any fun x => x.1 = r) then none else pullOp src s r
+
+def mixSel (st : State) (si : Nat) (s : Site) (subs : List Sub) (pull : Option (Nat × Room)) : List Sub :=
+  mixSelect st.d st.tick st.day st.usedRows st.rooms si (mixPull st si s pull).isSome s [] subs
 
 /-- the site after the op and what happens there, or `none` (skipped) -/
 def plan (st : State) (op : Op) : Option (Nat × Site × List Act) :=
@@ -496,15 +529,17 @@ def plan (st : State) (op : Op) : Option (Nat × Site × List Act) :=
       if si = ti || !(st.rooms.any fun x => x.1 = r) then none
       else (pullOp src dst r).map fun x => (si, x.1, x.2)
     | _, _ => none
-  | .mix si subs =>
+  | .mix si subs pull =>
     match st.sites[si]? with
     | none => none
     | some s =>
-      let sel := mixSelect st.d st.tick st.day st.usedRows st.rooms si s [] subs
+      let sel := mixSel st si s subs pull
       if sel.isEmpty then none
       else
-        let r := mixApply st.d st.tick st.day st.usedRows st.rooms si s sel
-        some (si, r.1, r.2 ++ List.replicate sel.length Act.pass)
+        let pulled := (mixPull st si s pull).getD (s, [])
+        let r := mixApply st.d st.tick st.day st.usedRows st.rooms si pulled.1 sel
+        some (si, r.1, pulled.2.filter (fun a => a ≠ .pass) ++ r.2 ++
+          List.replicate (sel.length + (if pulled.2.contains .pass then 1 else 0)) Act.pass)
   | op =>
     match siteOf op with
     | none => none
@@ -516,14 +551,10 @@ def plan (st : State) (op : Op) : Option (Nat × Site × List Act) :=
 def newRowsOf (st : State) : Op → List Nat
   | .new _ n _ _ => [n]
   | .stream _ _ rows => rows.map fun x => x.1
-  | .mix si subs =>
+  | .mix si subs pull =>
     match st.sites[si]? with
     | none => []
-    | some s =>
-      (mixSelect st.d st.tick st.day st.usedRows st.rooms si s [] subs).filterMap fun x =>
-        match x with
-        | .new n _ _ => some n
-        | _ => none
+    | some s => (mixSel st si s subs pull).flatMap Sub.newRows
   | _ => []
 
 def step (st : State) (op : Op) : State × Out :=
